@@ -58,7 +58,7 @@ def parseTransform (t : String) : Option Transform :=
   match t.splitOn ":" with
   | [m, g, fs] =>
     let fetches := (splitNonEmpty fs ";").map (fun f => (splitNonEmpty f "+").filterMap parseAtom)
-    some { multi := m == "1", gate := g == "1", fetches := fetches }
+    some { multi := m == "1", byVal := m == "2", gate := g == "1", fetches := fetches }
   | _ => none
 
 def parseEvent (t : String) : Option Event :=
